@@ -55,6 +55,8 @@ CONSTANTS Family,        \* "bsc" | "heco" | "pixie" | "clique" | "bor"
           MaxStored,     \* bound: stored non-genesis headers
           MaxLen,        \* bound: path length
           EmitOn,        \* print edges (generation run)
+          Sprint,        \* bor only: > 0 = sprint length; a header with (Num + 1) % Sprint = 0 is a sprint-end header
+          SpanEnd,       \* bor only: the stored Heimdall span is [G0, SpanEnd] with producers Sets[2]
           TwoBranch,     \* TRUE: fork-choice scenarios only (see Candidates)
           TraceLen       \* length of the behaviours printed by a simulation run (SimSpec)
 
@@ -92,6 +94,7 @@ ASSUME /\ Len(Sets) >= 2
        /\ \A i \in 1..Len(Sets) : Size(i) >= 1 /\ \A j, k \in 1..Size(i) : Sets[i][j] = Sets[i][k] => j = k
        /\ Family \in {"bsc", "heco", "pixie", "clique", "bor"}
        /\ (Family = "clique") => (Epoch > 0 /\ G0 % Epoch = 0)
+       /\ (Sprint > 0) => (Family = "bor" /\ G0 % Sprint = 0 /\ MaxLen < Sprint)
 
 (***************************************************************************)
 (* Implementation-shaped: getPrevHeightAndValidators                       *)
@@ -170,7 +173,13 @@ CliqueOK(parent, s, d, a) ==
 (* in the address-ordered list; no validator bytes outside sprint ends.    *)
 (***************************************************************************)
 Succession(s) == (IndexOf(s, 2) - IndexOf(GenesisSigner, 2) + Size(2)) % Size(2)
-BorOK(parent, s, d, a) == a = 0 /\ Member(s, 2) /\ d = Size(2) - Succession(s)
+\* Sprint-end headers (no span proof supplied: validateHeaderExtraField with the STORED span): the producer list they
+\* announce for the next sprint must be the stored span's producers and that span must cover block Num + 1
+\* (span.StartBlock <= Num + 1 <= span.EndBlock).  Heights stay below the next sprint start (MaxLen), so the
+\* proposer rotation at a sprint start is outside the domain.
+SprintEnd(n) == Sprint > 0 /\ (n + 1) % Sprint = 0
+BorAnnOK(n, a) == IF SprintEnd(n) THEN a = 2 /\ G0 <= n + 1 /\ n + 1 <= SpanEnd ELSE a = 0
+BorOK(parent, s, d, a) == BorAnnOK(Num(parent) + 1, a) /\ Member(s, 2) /\ d = Size(2) - Succession(s)
 
 \* the named deviation of snapshot(): s sealed the nearest checkpoint header, which lies outside the recent window
 CliqueStaleLastSeen(parent, s) ==
@@ -220,7 +229,7 @@ WantDiff(parent, s) == IF Family = "bor" THEN Size(2) - Succession(s) ELSE IF In
 \* what C29 demands of a header that gets stored, clause by clause
 MonOf(parent, s, d, a, f) ==
     [par |-> parent \in stored,
-     fmt |-> f = "ok" /\ (Family = "clique" => a = (IF (Num(parent) + 1) % Epoch = 0 THEN 2 ELSE 0)) /\ (Family = "bor" => a = 0),
+     fmt |-> f = "ok" /\ (Family = "clique" => a = (IF (Num(parent) + 1) % Epoch = 0 THEN 2 ELSE 0)) /\ (Family = "bor" => BorAnnOK(Num(parent) + 1, a)),
      mem |-> Member(s, VRef(parent)),
      rec |-> RecentRef(parent, s),
      dif |-> d = WantDiff(parent, s)]
@@ -300,7 +309,7 @@ Submit(x) ==
 
 \* model sanity, both directions: the implementation-shaped verdict (pointer walk, bounded look-back) coincides with
 \* the reference clauses, up to the announcement-spacing rule, which is not part of C29
-AnnChoices == {0} \cup (IF Family = "clique" THEN {2} ELSE {}) \cup (3..Len(Sets))
+AnnChoices == {0} \cup (IF Family \in {"clique", "bor"} THEN {2} ELSE {}) \cup (3..Len(Sets))
 ModelEquiv == \A p \in stored : \A s \in Keys : \A d \in Diffs : \A a \in AnnChoices :
                  Len(p) < MaxLen =>
                     (ImplOK(p, s, d, a) <=>
